@@ -57,7 +57,7 @@ def norm_spec(o, futs):
 
 def channel_part(chk, thorough, wd):
     configs = [(1, [1, 2, 3], 2, 7), (2, [1, 2, 3], 2, 6)] if not thorough else \
-        [(1, [1, 2, 3], 2, 9), (2, [1, 2, 3, 4], 2, 8), (3, [1, 2, 3, 4], 3, 8)]
+        [(1, [1, 2, 3], 2, 8), (2, [1, 2, 3, 4], 2, 7), (3, [1, 2, 3, 4], 3, 7)]
     for cap, futs, max_recv, max_ops in configs:
         tag = f"c{cap}_{len(futs)}_{max_ops}"
         mod, cfg = write_mc(tag, cap, futs, max_recv, max_ops, wd)
